@@ -1104,8 +1104,11 @@ func (m *Machine) Remove(states S, args A) Result {
 	}
 
 	// return early if none of the states is active
+	// (dont hold queueMx while reading the active states, others lock these
+	// two in the opposite order, eg Export)
 	m.queueMx.RLock()
 	lenQueue := len(m.queue)
+	m.queueMx.RUnlock()
 
 	// try ignoring this mutation, if none of the states is currently active
 	var statesAny []S
@@ -1114,11 +1117,9 @@ func (m *Machine) Remove(states S, args A) Result {
 	}
 
 	if lenQueue == 0 && m.Transition() != nil && !m.Any(statesAny...) {
-		m.queueMx.RUnlock()
 		return Executed
 	}
 
-	m.queueMx.RUnlock()
 	queueTick := m.queueMutation(MutationRemove, states, args, nil)
 	if queueTick == uint64(Executed) {
 		return Executed
@@ -3306,8 +3307,11 @@ func (m *Machine) EvRemove(event *Event, states S, args A) Result {
 	}
 
 	// return early if none of the states is active
+	// (dont hold queueMx while reading the active states, others lock these
+	// two in the opposite order, eg Export)
 	m.queueMx.RLock()
 	lenQueue := len(m.queue)
+	m.queueMx.RUnlock()
 
 	// try ignoring this mutation, if none of the states is currently active
 	var statesAny []S
@@ -3316,11 +3320,9 @@ func (m *Machine) EvRemove(event *Event, states S, args A) Result {
 	}
 
 	if lenQueue == 0 && m.Transition() != nil && !m.Any(statesAny...) {
-		m.queueMx.RUnlock()
 		return Executed
 	}
 
-	m.queueMx.RUnlock()
 	queueTick := m.queueMutation(MutationRemove, states, args, event)
 	if queueTick == uint64(Executed) {
 		return Executed
